@@ -697,6 +697,18 @@ pub fn wait_phase(k: u64) {
     }
 }
 
+/// spurious wake-up of every thread that is blocked in a condvar wait (std allows a wait to return
+/// although nobody notified); each of them still has to re-acquire its mutex
+pub fn spurious_wake_all() {
+    if let Some((rt, _)) = cur() {
+        let mut g = rt.lock();
+        let all: Vec<usize> = g.cvw.drain().flat_map(|(_, w)| w).collect();
+        for t in all {
+            g.th[t].st = St::Runnable;
+        }
+    }
+}
+
 pub fn yield_now() {
     if let Some((rt, me)) = cur() {
         rt.yield_now(me);
